@@ -55,4 +55,19 @@ TEXT = {
         level_text="Exploration: random traces from the statement's domain are printed by the library, parsed back and compared with the AST, then printed again and compared with the first print; same for single frames and throwables.",
         level_note="Trusted: the trace AST and its documented printed form (also compared with the library's Display).",
     ),
+    "C10": dict(
+        technique="runtime monitor: cross-version differential oracle (frozen 5.5.0 snapshot vs current tree linked in one process) over (writer, reader) histories",
+        level_text="Exploration over histories: every generated, mutated and corpus mapping is serialised by the pinned writer and by the current writer; each file is parsed by the pinned reader and the current reader; a reader may only refuse with WrongVersion, and when both accept every primitive query is answered by both and compared. A layout, sentinel, sort-order or string-encoding change without a version bump shows as a disagreement or a non-version rejection.",
+        level_note="Trusted: the frozen snapshot under /verif/pinned really is release 5.5.0 (git archive of f3fcb84, package renamed). Reader-vs-reader comparison per file, so repaired writers cannot alarm.",
+    ),
+    "C11": dict(
+        technique="runtime monitor with fault enumeration: every truncation point and header edit of each file, expected error kind from an independent layout walk; Miri/ASan for reads past the slice",
+        level_text="Fault enumeration: for each generated cache file every strict prefix (every crash point of a sequential write) and every listed single-field header edit is parsed by the real reader; the outcome must be the error kind of the first section that does not fit per the documented layout (with the declared/available lengths for the string section), the endianness/format/version error for magic/version edits, or - if a prefix were accepted - answers identical to the full file. Miri and ASan stages watch for a missing length check that would not panic.",
+        level_note="Trusted: layout walk in decoder D. Per file the fault space is complete; the files are sampled.",
+    ),
+    "C12": dict(
+        technique="runtime monitor: panic/overflow trap + pointer-provenance monitor over corrupter-generated buffers; ASan, Miri and valgrind memcheck stages",
+        level_text="Exploration: valid files are corrupted field by field with boundary values (systematic sweep and random), by record swaps/duplication, bit flips, string-prefix and UTF-8 damage and random bodies; parse and the whole query set (incl. line 0 and 2^64-1) run under the overflow-checked panic trap; every returned string must be a slice of the buffer or of the query. The same workload runs under AddressSanitizer and Miri (quick and thorough) and valgrind (thorough) to catch out-of-bounds or uninitialised reads that do not panic.",
+        level_note="Trusted: rustc overflow checks and bounds checks, ASan/Miri/valgrind (each stage must first detect its canary).",
+    ),
 }
